@@ -93,6 +93,9 @@ fn inputs<F: Scalar>(p: &Params, c: &Cfg) -> Data<F> {
                 let base = 2f64.powi(adj as i32);
                 let ulp = f64::from_bits(base.to_bits() + 1) - base;
                 F::lit(base + i as f64 * ulp)
+            } else if p.get("xseq", 0) == 1 {
+                // concrete distinct features (one path): larger nodes than the solver could explore symbolically
+                F::lit(((i * 5 + j * 7 + 3) % c.n.max(1)) as f64 + j as f64 * 0.5)
             } else {
                 int::<F>(&format!("x{}_{}", i, j), -b, b)
             };
@@ -102,7 +105,7 @@ fn inputs<F: Scalar>(p: &Params, c: &Cfg) -> Data<F> {
     let wpat = p.get("wpat", -1);
     let (wmax, wlo) = (p.u("wmax", 2), p.get("wlo", 1));
     let wdiv = p.get("wdiv", 1) as f32;
-    let ysym: Vec<F> = if pattern < 0 { (0..c.n).map(|i| int::<F>(&format!("y{}", i), 0, c.classes as i64 - 1)).collect() } else { vec![] };
+    let ysym: Vec<F> = if pattern < 0 && pattern != -3 { (0..c.n).map(|i| int::<F>(&format!("y{}", i), 0, c.classes as i64 - 1)).collect() } else { vec![] };
     let wsym: Vec<F> = if wpat == -2 { (0..c.n).map(|i| int::<F>(&format!("w{}", i), 0, wmax as i64 - 1)).collect() } else { vec![] };
     if p.get("distinct", 0) == 1 {
         for j in 0..c.d {
@@ -113,7 +116,20 @@ fn inputs<F: Scalar>(p: &Params, c: &Cfg) -> Data<F> {
             }
         }
     }
-    let y: Vec<usize> = if pattern < 0 { ysym.iter().map(|v| pick(*v, c.classes)).collect() } else { digits(pattern, c.classes, c.n) };
+    // pattern = -3 / wpat = -3: labels / weights from a small generator seeded with `wseed`
+    let mut lcg = (p.get("wseed", 0) as u64).wrapping_mul(0x9E3779B97F4A7C15).wrapping_add(0x1234567);
+    let mut draw = |m: usize| -> usize {
+        lcg = lcg.wrapping_mul(6364136223846793005).wrapping_add(1442695040888963407);
+        ((lcg >> 33) % m as u64) as usize
+    };
+    let ysym: Vec<F> = if pattern == -3 { vec![] } else { ysym };
+    let y: Vec<usize> = if pattern == -3 {
+        (0..c.n).map(|i| if i < c.classes { i } else { draw(c.classes) }).collect()
+    } else if pattern < 0 {
+        ysym.iter().map(|v| pick(*v, c.classes)).collect()
+    } else {
+        digits(pattern, c.classes, c.n)
+    };
     if pattern < 0 && p.get("canon", 0) == 1 {
         // restricted growth string: class k+1 appears only after class k
         let mut top = 0;
@@ -130,6 +146,7 @@ fn inputs<F: Scalar>(p: &Params, c: &Cfg) -> Data<F> {
     }
     let w = match wpat {
         -1 => None,
+        -3 => Some((0..c.n).map(|_| (wlo + draw(wmax) as i64) as f32 / wdiv).collect()),
         // `wdiv` > 1 gives fractional (non-dyadic for wdiv = 10) f32 weights: sums of them depend on the order
         -2 => Some(wsym.iter().map(|v| (wlo + pick(*v, wmax) as i64) as f32 / wdiv).collect()),
         code => Some(digits(code, wmax, c.n).into_iter().map(|k| (wlo + k as i64) as f32 / wdiv).collect()),
